@@ -1156,7 +1156,14 @@ class Builder:
                         continue
                 ta = self.term(a, fr)
                 scalar_arg = is_scalar_term(ta) or (ta[0] == "v" and ta[2] in ("u", "s", "p", "b", "st"))
-                if o is not None and so not in ("u", "s", "b") and not scalar_arg:
+                opaque_local = False
+                if a0 is not None and a0.get("k") == "ref" and a0.get("d") == "local" and T.has_unknown(ta) and o is not None:
+                    # a local holding an unmodelled value (auto const tail = etl::move(...)) is not an object with state
+                    try:
+                        opaque_local = fr.ctx.record_of(o)[0] is None
+                    except Exception:
+                        opaque_local = True
+                if o is not None and so not in ("u", "s", "b") and not scalar_arg and not opaque_local:
                     # object passed by reference
                     r = self.root_of(a, fr)
                     if r[0] == "local" and "&" in p["ty"] and o not in fr.ctx.obj_types:
